@@ -51,6 +51,7 @@ def gen(rng, tier):
         d["lazy"] = bool(rng.random() < 0.4)
         d["defoci"] = rng.uniform(-300, 300, int(rng.integers(2, 4))).round(2).tolist()
         d["order"] = [int(i) for i in rng.permutation(4)]
+        d["incident"] = bool(rng.random() < 0.4)   # reciprocal-space incident waves reused for two runs
         d["efforts"] = [str(e) for e in rng.choice(EFFORTS, size=2, replace=False)]
         return d
     d = P.gen_pipeline(rng, small=True)
@@ -145,8 +146,30 @@ def _transform(case, prec):
     return w.downsample(max_angle="valid").array
 
 
+def _reuse_incident(case):
+    """Incident waves stored in reciprocal space, used for two multislice runs and then inspected again."""
+    import abtem
+    pot = P._potential(case)
+    pw = abtem.Probe(energy=case["energy"], semiangle_cutoff=20.0, defocus=40.0)
+    pw.grid.match(pot)
+    ext = pot.extent
+    inc = pw.build(scan=abtem.CustomScan([[0.3 * ext[0], 0.6 * ext[1]], [0.7 * ext[0], 0.2 * ext[1]]]), lazy=False)
+    inc = inc.ensure_reciprocal_space()
+    if case["lazy"]:
+        inc = inc.ensure_lazy()
+    first = inc.multislice(pot)
+    second = inc.multislice(pot)
+    third = inc.ensure_real_space().intensity()
+    res = [first, second, third]
+    if case["lazy"]:
+        res = [r.compute(progress_bar=False, scheduler="synchronous") for r in res]
+    return res
+
+
 def _reuse(case):
     """Exit wave used by several consumers, in a case-defined order; returns the list of results."""
+    if case.get("incident"):
+        return _reuse_incident(case)
     w = P.run(case, lazy=case["lazy"])
     if isinstance(w, list):
         w = w[0]
@@ -232,4 +255,9 @@ def fixed_cases(tier):
                     "projection": "infinite", "potential": {"kind": "atoms"}, "exit_planes": None,
                     "detectors": [{"type": "waves"}], "normalize": False, "tilt": [0.0, 0.0], "lazy": lazy,
                     "defoci": [0.0, 120.0, -250.0], "order": [0, 1, 2, 3], "efforts": ["FFTW_ESTIMATE", "FFTW_MEASURE"]})
+    for lazy in (False, True):
+        c = dict(out[0])
+        c.update({"lazy": lazy, "incident": True, "potential": {"kind": "frozen", "num_configs": 2, "sigma": 0.08, "seed": 3,
+                                                              "ensemble_mean": False}})
+        out.append(c)
     return out
